@@ -12,6 +12,8 @@ while args:
     a = args.pop(0)
     if a == '--tier':
         tier = args.pop(0)
+    elif a == '--seed':
+        os.environ['VERIF_SEED'] = args.pop(0)
     elif a == '--also':
         also = args.pop(0).split(',')
     else:
@@ -35,7 +37,7 @@ for sid in ids:
             p = subprocess.run([os.path.join(V, 'check'), chk, tier], cwd=V, env=env, stdout=subprocess.PIPE, stderr=subprocess.STDOUT)
             txt = p.stdout.decode(errors='replace')
             buckets = re.findall(r'bucket=(\S+)', txt)
-            out['%s/%s' % (chk, tier)] = {'exit': p.returncode, 'violation_buckets': sorted(set(buckets))[:12],
+            out['%s/%s%s' % (chk, tier, ('@seed' + os.environ['VERIF_SEED']) if os.environ.get('VERIF_SEED') else '')] = {'exit': p.returncode, 'violation_buckets': sorted(set(buckets))[:12],
                                           'summary': txt.strip().split('\n')[-1]}
             print(sid, chk, tier, 'exit', p.returncode, len(set(buckets)), 'buckets', flush=True)
         json.dump(out, open(path, 'w'), indent=1, sort_keys=True)
